@@ -152,7 +152,7 @@ def run_comp(c) -> CaseResult:
     def fn(*ts):
         inp = dict(inputs)
         inp.update(dict(zip(names, ts)))
-        return dsl.evaluate(prog, P, inp, dsl.Unit())
+        return dsl.evaluate(prog, dsl.named_tensors(m), inp, dsl.Unit())
     t1 = [inputs[k].clone().requires_grad_() for k in names]
     y = fn(*t1)
     g = torch.autograd.grad(y, t1 + list(P.values()), allow_unused=True)
